@@ -13,10 +13,8 @@
                                     _insert_import_statement_in_method, _update_imports -> fr_step & friends
      contrib/no_reimports.py        generate_init_module                           -> nr_step
      client_generators/package.py   the ORDER in which the hooks are called         -> generate
-   The forward-refs model is parametrised by the two places where the code on the unchanged tree is wrong
-   (finding F24): the `level` of `from typing import TYPE_CHECKING` and whether the stored module path keeps
-   its leading dots; [fr_current] is the code as found, [fr_fixed] the repaired code.  The tie (K1) says which
-   of the two the working tree implements. *)
+   The forward-refs model is the code after /repo 7b86743 (finding F24, fixed): the module path is stored
+   without its leading dots and re-emitted at level 1; `from typing import TYPE_CHECKING` is absolute. *)
 From Coq Require Import List String Ascii Bool Arith.
 From AC Require Import Base.Strs Base.Sexp Model.Names.
 Import ListNotations.
@@ -391,16 +389,12 @@ Definition ex_step (st : ex_state) (h : hook) (o : obj) : option (ex_state * obj
   end.
 
 (* ------------------------------------------------------------------ ClientForwardRefs *)
-Record fr_cfg := { fr_typing_level : nat; fr_strip_dots : bool }.
-Definition fr_current : fr_cfg := {| fr_typing_level := 1; fr_strip_dots := false |}.   (* the code as found *)
-Definition fr_fixed : fr_cfg := {| fr_typing_level := 0; fr_strip_dots := true |}.       (* fixes/C15-*.diff *)
-
-(* _store_imported_classes *)
-Definition fr_imported (cfg : fr_cfg) (imports : list imp) : list (string * string) :=
+(* _store_imported_classes: from_ = node.module.lstrip(".") *)
+Definition fr_imported (imports : list imp) : list (string * string) :=
   fold_left (fun acc i =>
                if (negb (Nat.eqb (i_level i) 1) && negb (starts_with_dot (i_module i)))%bool then acc
                else
-                 let from := if fr_strip_dots cfg then lstrip_dots (i_module i) else src_of (i_level i) (i_module i) in
+                 let from := lstrip_dots (i_module i) in
                  fold_left (fun acc2 n => dict_set n from acc2) (i_names i) acc)
             imports [].
 
@@ -490,8 +484,8 @@ Definition fr_tc_imports (ic : list (string * string)) (types : list string) : o
                | _, _ => None
                end) types (Some []).
 
-Definition fr_client (cfg : fr_cfg) (c : cmodule) : option cmodule :=
-  let ic := fr_imported cfg (cm_imports c) in
+Definition fr_client (c : cmodule) : option cmodule :=
+  let ic := fr_imported (cm_imports c) in
   match fr_methods ic (cm_methods c) with
   | None => None
   | Some (ms, ann_names, in_method) =>
@@ -504,15 +498,15 @@ Definition fr_client (cfg : fr_cfg) (c : cmodule) : option cmodule :=
           | None => None
           | Some tc =>
               Some {| cm_imports := fr_reduce removed (cm_imports c)
-                                    ++ [{| i_level := fr_typing_level cfg; i_module := "typing"; i_names := ["TYPE_CHECKING"] |}];
+                                    ++ [{| i_level := 0; i_module := "typing"; i_names := ["TYPE_CHECKING"] |}];
                       cm_tc := cm_tc c ++ tc; cm_class := cm_class c; cm_bases := cm_bases c; cm_methods := ms |}
           end
       end
   end.
 
-Definition fr_step (cfg : fr_cfg) (h : hook) (o : obj) : option obj :=
+Definition fr_step (h : hook) (o : obj) : option obj :=
   match h, o with
-  | HClientModule, OClient c => match fr_client cfg c with Some c' => Some (OClient c') | None => None end
+  | HClientModule, OClient c => match fr_client c with Some c' => Some (OClient c') | None => None end
   | _, _ => Some o
   end.
 
@@ -527,7 +521,7 @@ Definition nr_step (h : hook) (o : obj) : obj :=
 Inductive plugin :=
 | PShorter (st : sh_state)
 | PExtract (st : ex_state)
-| PForward (cfg : fr_cfg)
+| PForward
 | PNoReimports
 | PIdentity.            (* a plugin class overriding no hook: Plugin's defaults return their argument *)
 
@@ -535,7 +529,7 @@ Definition step (p : plugin) (h : hook) (o : obj) : option (plugin * obj) :=
   match p with
   | PShorter st => match sh_step st h o with Some (st', o') => Some (PShorter st', o') | None => None end
   | PExtract st => match ex_step st h o with Some (st', o') => Some (PExtract st', o') | None => None end
-  | PForward cfg => match fr_step cfg h o with Some o' => Some (p, o') | None => None end
+  | PForward => match fr_step h o with Some o' => Some (p, o') | None => None end
   | PNoReimports => Some (p, nr_step h o)
   | PIdentity => Some (p, o)
   end.
@@ -862,16 +856,14 @@ Definition dPackage (e : sexp) : option upackage :=
   | _ => None
   end.
 
-(* plugin configuration: (shorter <fragments module>) (extract <operations module>) (forward current|fixed)
-   noreimports identity *)
+(* plugin configuration: (shorter <fragments module>) (extract <operations module>) forward noreimports identity *)
 Definition dPlugin (e : sexp) : option plugin :=
   match e with
   | L [A "shorter"; A fm] =>
       Some (PShorter {| sh_fragments_module := fm; sh_classes := []; sh_imported := []; sh_extended := [] |})
   | L [A "extract"; A om] =>
       Some (PExtract {| ex_module := om; ex_gqls := []; ex_vars := []; ex_written := false |})
-  | L [A "forward"; A "current"] => Some (PForward fr_current)
-  | L [A "forward"; A "fixed"] => Some (PForward fr_fixed)
+  | A "forward" => Some PForward
   | A "noreimports" => Some PNoReimports
   | A "identity" => Some PIdentity
   | _ => None
